@@ -687,11 +687,19 @@ def explore(res, tier, seed, model_ok=True):
                 '(whole, bytewise, random, inside the separator; recv <= 1024) x what follows (EOF, socket error, timeout, silence, more bytes) x failures at connect, '
                 'CONNECT write, any recv, TLS wrap, request write; in every second case application sends (text, ping, binary) are attempted at every socket call of the negotiation and at ConnectFail and must be refused without reaching the socket; exhaustive: every status code 0..999, every 1- and 2-cut segmentation of a 200 and a 407 reply, '
                 'every position of EOF/error/timeout in a segmented reply, every header length 16380..16390; non-trivial = a proxy entry is configured for the scheme; '
-                'distinct by (url, mapping, environment, reads)')
+                'distinct by (url, mapping, environment, reads); plus composed connections (harness/linkworld.py): http:// proxy x address outcomes of the '
+                'proxy x reply classes x a random core history (handshake, frames, faults, reactions) run through the real _connect/_connect_proxy/_connect_sock and the '
+                'whole session loop, compared with the composed model `link`, oracle = no websocket-layer write before CONNECT + complete 200')
     n = 25000 if thorough else 700
     cases = [gen_case(rng) for _ in range(n)]
     pairs = run_cases(res, cases, model_ok, 'generated')
     res.samples += [p[0][:400] for p in pairs[:3]]
+
+    # ---- the COMPOSED connection (Model/ConnectLink.lean, Properties/C19_Core.lean): the real `run()` with the real
+    # `_connect` / `_connect_proxy` / `_connect_sock` through a whole connection (address loop, CONNECT dialogue, then upgrade,
+    # frames, timers, close) against `ConnectLink.composed`; oracle: C19's text over the composed trace --------------------
+    import linkworld
+    linkworld.explore_stream(res, rng, 'proxy', 6000 if thorough else 400, model_ok, 'C19')
 
     # ---- exhaustive sub-domains --------------------------------------------------------------------
     ex = []
@@ -746,6 +754,11 @@ def explore(res, tier, seed, model_ok=True):
 
 def replay(rp):
     case = rp['input']
+    if isinstance(case, dict) and case.get('kind') == 'link':
+        import linkworld
+        print('real: ' + linkworld.run_link_safe(case['case']))
+        print('model line: ' + linkworld.link_line(case['case']))
+        return 0
     out = real_one(case)
     print('case   :', json.dumps({k: v for k, v in case.items() if k != 'meta'})[:2000])
     print('class  :', rp.get('cls'), '-', rp.get('what'))
